@@ -186,6 +186,13 @@ def seeds(signed=None):
     add("redact", [J(PDU), "11"], 1)
     for ty in ["m.room.member", "m.room.power_levels", "m.room.create", "m.room.join_rules", "m.room.redaction", "m.room.history_visibility", "x"]:
         add("redact_content", [J(POWER["content"] | MEMBER["content"] | CREATE["content"] | JOINRULES["content"]), "11", ty], 0, "json")
+    for j in [{"allow": [{"type": "m.room_membership", "room_id": "!a:b"}, {"type": "org.custom", "x": 1}]}, {"allow": []}]:
+        add("restricted_json", [J(j)], 0, "json")
+        add("join_rules_content", [J({"join_rule": "restricted", **j})], 0, "json")
+    add("join_rules_content", [J({"join_rule": "knock_restricted", "allow": [{"type": "m.room_membership", "room_id": "!a:b"}]})], 0, "json")
+    for t in ["==2", "<=10", ">=2", "<5", ">0", "7"]:
+        add("member_count_is", [t])
+        add("push_condition_json", [J({"kind": "room_member_count", "is": t}), J(PUSH_EVENT)], 0, "json")
     add("ruleset_json", [J(RULESET), J(PUSH_EVENT)], 0, "json")
     add("ruleset_json", [J(RULESET), J(PUSH_EVENT)], 1, "json")
     for c in RULESET["override"][1]["conditions"]:
@@ -293,11 +300,21 @@ def seeds(signed=None):
         ("fed_make_join", "200", "content-type: application/json", J({"room_version": "10", "event": {k: v for k, v in PDU.items() if k not in ("signatures", "hashes")}})),
         ("fed_get_event", "403", "content-type: application/json", J({"errcode": "M_FORBIDDEN", "error": "x"})),
     ]
+    mp = ("--abcdef\r\nContent-Type: application/json\r\n\r\n{}\r\n--abcdef\r\nContent-Type: text/plain\r\n"
+          "Content-Disposition: attachment; filename=\"f.txt\"\r\n\r\nsome plain text\r\n--abcdef--")
+    mploc = "--abcdef\r\nContent-Type: application/json\r\n\r\n{}\r\n--abcdef\r\nLocation: https://cdn.example/x\r\n\r\n\r\n--abcdef--"
+    resps += [("fed_media", "200", "content-type: multipart/mixed; boundary=abcdef", mp),
+              ("fed_media", "200", "content-type: multipart/mixed; boundary=abcdef", mploc),
+              ("fed_thumbnail", "200", "content-type: multipart/mixed; boundary=\"abcdef\"", mp),
+              ("register", "401", "content-type: application/json", J({"flows": [{"stages": ["m.login.dummy", "m.login.email.identity"]}], "params": {"m.login.terms": {"policies": {}}},
+                                                                       "session": "s", "completed": ["m.login.dummy"], "errcode": "M_FORBIDDEN", "error": "x"})),
+              ("register", "200", "content-type: application/json", J({"user_id": USER, "access_token": "t", "device_id": "D"})),
+              ("capabilities", "200", "content-type: application/json", J({"capabilities": {"m.change_password": {"enabled": False}, "m.room_versions": {"default": "10", "available": {"1": "stable", "x": "unstable"}}, "org.x": {"y": 1}}}))]
     for r in resps:
         args = [r[0], r[1], r[2], r[3]]
         add("endpoint_response", args, 2)
         add("endpoint_response", args, 1)
-        add("endpoint_response", args, 3, "json" if r[0] != "get_content" else "bytes")
+        add("endpoint_response", args, 3, "json" if r[0] not in ("get_content", "fed_media", "fed_thumbnail") else "bytes")
     st = [CREATE, POWER, JOINRULES, MEMBER]
     for v in ["1", "6", "8", "10", "11"]:
         for e in [MEMBER, {**MEMBER, "content": {"membership": "invite", "third_party_invite": {"display_name": "x", "signed": {"mxid": USER, "token": "t", "signatures": {"a": {"ed25519:0": "AAAA"}}}}}},
@@ -363,14 +380,32 @@ def text_mutations(s, rng, budget):
             out.append(s[:a] + "é" * L + s[b:])
         out.append(s[:a] + s[a:b].upper() + s[b:])
         out.append(s[:a] + s[a:b] * 2 + s[b:])
+    # line structure (headers, multipart bodies, quoted replies): delete / duplicate / swap lines and line ranges
+    line_block = []
+    if "\n" in s:
+        lines = s.split("\n")
+        for a in range(len(lines)):
+            line_block.append("\n".join(lines[:a] + lines[a + 1:]))
+            line_block.append("\n".join(lines[:a] + [lines[a]] + lines[a:]))
+            if a + 1 < len(lines):
+                line_block.append("\n".join(lines[:a] + [lines[a + 1], lines[a]] + lines[a + 2:]))
+            for b in range(a + 2, min(len(lines), a + 5) + 1):
+                line_block.append("\n".join(lines[:a] + lines[b:]))
+        line_block.append(s.replace("\r\n", "\n"))
+        line_block.append(s.replace("\n", "\r\n"))
     out.append(s * 2)
     out.append(s + "\x00")
     out.append(" " + s + " ")
     if len(out) > budget:
-        keep = out[:n]  # all truncations always
+        # every truncation of a short text, an even spread over a long one; the line-structure mutants; a sample of the rest
+        step = max(1, n // 80)
+        keep = [out[k] for k in range(0, n, step)]
+        keep += line_block if len(line_block) <= 120 else rng.sample(line_block, 120)
         rest = out[n:]
-        keep += rng.sample(rest, max(0, budget - n))
+        keep += rng.sample(rest, min(len(rest), max(budget - len(keep), budget // 2)))
         out = keep
+    else:
+        out += line_block
     return out
 
 
